@@ -483,6 +483,7 @@ type LoopSpec struct {
 	Key        string
 	Invariants []Clause
 	Modifies   []string
+	NoDefault  bool
 }
 
 type AnchorAssert struct {
@@ -512,6 +513,7 @@ type Contract struct {
 	Origin string // file the contract came from
 	NoPanicOff bool
 	Terminates bool // body never returns normally (log.Fatal etc.)
+	LoopInv    []Clause // default invariants for every loop (templates)
 }
 
 type Pred struct {
@@ -550,7 +552,7 @@ func NewSpecSet() *SpecSet {
 var directiveWords = map[string]bool{
 	"func": true, "requires": true, "ensures": true, "invariant": true, "loop": true,
 	"modifies": true, "pred": true, "axiom": true, "ghost": true, "assert": true, "assume": true,
-	"let": true, "arith": true, "globalinv": true, "pure": true, "opt": true, "trusted": true, "terminates": true,
+	"let": true, "arith": true, "globalinv": true, "loopinv": true, "nodefault": true, "pure": true, "opt": true, "trusted": true, "terminates": true,
 }
 
 // ParseSpecText parses the concatenated "//@" lines of one file. pkgPrefix is
@@ -690,6 +692,20 @@ func (ss *SpecSet) ParseSpecText(origin, pkgPrefix string, lines []string) error
 			curLoop = &LoopSpec{Key: key}
 			cur.Loops[key] = curLoop
 			cur.LoopOrder = append(cur.LoopOrder, key)
+		case "loopinv":
+			if cur == nil {
+				return fmt.Errorf("%s: loopinv outside func", origin)
+			}
+			cl, err := parseClause(rest)
+			if err != nil {
+				return fmt.Errorf("%s: %s: %v", origin, cur.Func, err)
+			}
+			cur.LoopInv = append(cur.LoopInv, cl)
+		case "nodefault":
+			if curLoop == nil {
+				return fmt.Errorf("%s: nodefault outside loop", origin)
+			}
+			curLoop.NoDefault = true
 		case "invariant":
 			if curLoop == nil {
 				return fmt.Errorf("%s: invariant outside loop", origin)
